@@ -24,12 +24,16 @@ EXTENDS Naturals, Sequences, FiniteSets, TLC
 
 CONSTANTS MaxDepth,     \* stack depth bound
           MaxActions,   \* tracepoints on the location
-          SharedTable   \* deviation switch
+          SharedTable,  \* deviation switch
+          ClsKinds      \* what `self` is in a frame: "none" (a plain function), "C" (an ordinary instance),
+                        \*   "E" (an instance that is falsy: an empty container-like object),
+                        \*   "H" (an instance whose truth value cannot be taken: __bool__ raises)
+                        \* - the frame's class is the class of self whatever self's truth value is
 
 FrameTypes == {"single_frame", "all_frame", "no_frame", "bogus"}
 WatchKinds == {"local", "global", "failing"}
 
-VARIABLES stack,     \* sequence of frames, top first: [nl |-> number of locals, cls |-> "none"|"C", app |-> BOOLEAN]
+VARIABLES stack,     \* sequence of frames, top first: [nl |-> number of locals, cls \in ClsKinds, app |-> BOOLEAN]
           tps,       \* sequence of tracepoints: [ft |-> frame type, w |-> sequence of watch kinds]
           expire,    \* frame index (0-based) from which the time budget is exhausted; MaxDepth = never
           snaps,     \* produced snapshots, one per processed action
@@ -39,7 +43,7 @@ VARIABLES stack,     \* sequence of frames, top first: [nl |-> number of locals,
 
 vars == <<stack, tps, expire, snaps, evCached, next, phase>>
 
-Frames == [nl : 0..2, cls : {"none", "C"}, app : BOOLEAN]
+Frames == [nl : 0..2, cls : ClsKinds, app : BOOLEAN]
 Tps == [ft : FrameTypes, w : {<<>>, <<"local">>, <<"failing", "local">>, <<"global">>}]
 
 Init ==
